@@ -125,7 +125,7 @@ def creation_task(task):
 
 
 def main(ctx):
-    depth = 3 if ctx.tier == "quick" else 5
+    depth = 3 if ctx.tier == "quick" else 4
     agg, cov = texp.bfs(ctx, "c06", depth, ctx.tier, PID)
     tasks = [{"kind": k, "dt": dt} for k in ("quantize", "modules") for dt in ("float32", "float16", "bfloat16")]
     res = ctx.map("creation_task", tasks, label="creation routes")
